@@ -583,15 +583,15 @@ def check_C13(chk, tier):
     for prec in (["d", "z"] if q else list("dszc")):
         cplx = prec in "zc"; cs = []
         if q:
-            for tc in (0, 1, 2): cs.append((1, hex(1)) + tuple(T["t122"]) + (tc, 1, 0, 0, 0))
+            for tc in ((0, 1, 2) if not cplx else (2,)): cs.append((1, hex(1)) + tuple(T["t122"]) + (tc, 1, 0, 0, 0))
             if not cplx:
-                cs.append((2, hex(0b1101)) + tuple(T["t122"]) + (0, 1, 0, 0, 0)); cs.append((2, hex(0b1101)) + tuple(T["t212"]) + (0, 2, 0, 2, 1)); cs.append((2, hex(0b1011)) + tuple(T["t212"]) + (1, 2, 1, 0, 1))
+                cs.append((2, hex(0b1101)) + tuple(T["t212"]) + (0, 2, 0, 2, 1)); cs.append((2, hex(0b1011)) + tuple(T["t212"]) + (1, 2, 1, 0, 1))
         else:
             for n, pat in ((1, 1), (2, 15), (2, 0b1101), (3, 511)):
                 for tc in (0, 1, 2):
                     cs.append((n, hex(pat)) + tuple(T["t122"]) + (tc, 1, 0, 0, 0))
                     if n >= 2: cs.append((n, hex(pat)) + tuple(T["t212"]) + (tc, 3, 0, 2, 1)); cs.append((n, hex(pat)) + tuple(T["t212"]) + (tc, 2, 1, 0, 1))
-        run_phase(chk, "gsrfs-direct/" + prec, H + "h_gsrfs.c", list(dict.fromkeys(cs)), ["C13."], prec=prec, budget_s=150 if q else 1500, validate_samples=0, path_timeout=45 if q else 600,
+        run_phase(chk, "gsrfs-direct/" + prec, H + "h_gsrfs.c", list(dict.fromkeys(cs)), ["C13."], prec=prec, budget_s=100 if q else 1500, validate_samples=0, path_timeout=30 if q else 600,
                   bounds="n<=3 generic concrete A, all Trans, nrhs<=3 with ldx != ldb, symbolic arbitrary X (all columns or one column) and B", qtimeout_ms=5000 if q else 60000, env=CPLX_ENV if cplx else None)
     xc = [xcase(n, pat, storage=st, trans=tr, equil=eq, refine=0, symcols=sc) for n, pat, sc in ((1, 1, -1), (2, 15, 2)) for st in (0, 1) for tr in (1, 2) for eq in (0, 1)]
     run_phase(chk, "norefine via gssvx/d", H + "h_gssvx.c", xc, ["C13."], prec="d", budget_s=100, validate_samples=0, bounds="IterRefine = NOREFINE through the expert driver")
